@@ -371,6 +371,10 @@ func (db *SingleBucketBackend) PutObject(
 	objectFilePath := filepath.FromSlash(objectName)
 	objectDir := filepath.Dir(objectFilePath)
 
+	if err := checkKeyConflict(db.fs, ".", objectName); err != nil {
+		return result, err
+	}
+
 	if objectDir != "." {
 		if err := db.fs.MkdirAll(objectDir, 0777); err != nil {
 			return result, err
